@@ -195,6 +195,15 @@ func (p *Prompt) SecondaryPrint() {
 	fmt.Print(secondaryPromptDefault)
 }
 
+// SecondaryUsed returns the number of terminal columns used by the secondary prompt.
+func (p *Prompt) SecondaryUsed() int {
+	if p.secondaryF != nil {
+		return strutil.RealLength(p.secondaryF())
+	}
+
+	return strutil.RealLength(secondaryPromptDefault)
+}
+
 // MultilineColumnPrint prints the multiline editor column status indicator.
 // It either prints a default, numbered or user-defined column.
 // It returns the number of rows that the cursor has been moved down.
